@@ -98,7 +98,23 @@ def cases(seed, tier):
             pol['banner'] = prof['banner'] if rng.random() < 0.6 else 'SSH-2.0-Other_1.0'
         if rng.random() < 0.2:
             pol['compressions'] = prof['comp'] if rng.random() < 0.6 else ['none']
-        yield {'profile': prof, 'policy': pol, 'opts': rng.choice([['-n'], ['-j'], ['-jj'], ['-n', '-b'], ['-n', '-v']]), 'pseed': rng.getrandbits(32)}
+        c = {'profile': prof, 'policy': pol, 'opts': rng.choice([['-n'], ['-j'], ['-jj'], ['-n', '-b'], ['-n', '-v']]), 'pseed': rng.getrandbits(32)}
+        if rng.random() < 0.15:
+            # client audit with a client policy: what is judged is what the report shows (the server-to-client direction)
+            c['role'] = 'client'
+            pol['client'] = True
+            pol.pop('hostkey_sizes', None)
+            pol.pop('dh_modulus_sizes', None)
+            pol.pop('banner', None)
+            prof['banner'] = 'SSH-2.0-OpenSSH_9.6'
+            prof.pop('keys', None)
+            if rng.random() < 0.7:
+                prof['enc_s2c'] = list(prof['enc'])
+                prof['enc'] = sublist(rng, U['enc'])            # client-to-server list: not what the report shows
+            if rng.random() < 0.7:
+                prof['mac_s2c'] = list(prof['mac'])
+                prof['mac'] = sublist(rng, U['mac'])
+        yield c
 
 
 def sample(case):
@@ -151,6 +167,11 @@ def verdict(case, rec):
 
 
 def run_policy(case, ctx, prof):
+    if case.get('role') == 'client':
+        plan = gen.client_plan(case['pseed'], list(case['opts']) + ['-c', '-p', '2222', '-t', '4', '-P', '{DIR}/policy.txt'], prof, port=2222)
+        plan['dir'] = ctx.scratch()
+        plan['files'] = {'policy.txt': refmodels.policy_text(case['policy'])}
+        return ctx.run(plan)
     argv = list(case['opts']) + ['--skip-rate-test', '-t', '2', '-P', '{DIR}/policy.txt', 'srv.example:2222']
     plan = gen.server_plan(case['pseed'], argv, prof, port=2222)
     plan['dir'] = ctx.scratch()
@@ -169,8 +190,12 @@ def run_case(case, ctx):
         out.append(viol('C06 no verdict printed (status %s)' % rec['status'], '%s\n%s\npolicy:\n%s' % (rec['stdout'][-700:], rec['stderr'][-300:], refmodels.policy_text(pol))))
         return {'violations': out, 'keys': []}
     passed, fields, errs = v
-    hk, dh = measured(prof, rec)
-    peer = {'banner': prof['banner'], 'comp': prof['comp'], 'key': prof['key'], 'kex': prof['kex'], 'enc': prof['enc'], 'mac': prof['mac'], 'host_keys': hk, 'dh': dh}
+    client = case.get('role') == 'client'
+    hk, dh = ({}, {}) if client else measured(prof, rec)
+    shown_enc = prof.get('enc_s2c', prof['enc']) if client else prof['enc']
+    shown_mac = prof.get('mac_s2c', prof['mac']) if client else prof['mac']
+    peer = {'banner': prof['banner'], 'comp': prof.get('comp_s2c', prof['comp']) if client else prof['comp'], 'key': prof['key'], 'kex': prof['kex'], 'enc': shown_enc, 'mac': shown_mac,
+            'host_keys': hk, 'dh': dh}
     want_fail, open_ = refmodels.policy_eval(pol, peer)
     flags = 'subset=%s larger=%s' % (bool(pol.get('subset')), bool(pol.get('larger')))
     if passed != (len(fields) == 0):
@@ -189,12 +214,12 @@ def run_case(case, ctx):
     if errs:
         for e in errs:
             cf = refmodels.canon_field(e['mismatched_field'])
-            src = {'key': ('host_keys', prof['key']), 'kex': ('kex', prof['kex']), 'enc': ('ciphers', prof['enc']), 'mac': ('macs', prof['mac'])}.get(cf)
+            src = {'key': ('host_keys', prof['key']), 'kex': ('kex', prof['kex']), 'enc': ('ciphers', peer['enc']), 'mac': ('macs', peer['mac'])}.get(cf)
             if src:
                 if e.get('actual') != src[1] or e.get('expected_required') != pol.get(src[0]):
                     out.append(viol('C06 error does not carry the expected/actual values of its field (%s)' % cf, json.dumps(e)[:500]))
     # metamorphic follow-ups
-    if passed and not want_fail and not open_:
+    if passed and not want_fail and not open_ and not client:
         if pol.get('subset'):
             prof2 = copy.deepcopy(prof)
             rng = gen.case_rng(case['pseed'], 'meta')
